@@ -175,6 +175,9 @@ def small_scope(chk, pid, nontrivial_all, cfg=None):
     chk.add_tlc(res, "tlc enumeration of the small legalization scope (" + cfg + ")")
     results, d2, allruns, exe = tracecheck.cases_and_validate(chk, "asan-ubsan", "record", out, cfg, module="TraceCircuit", extra_args=["timeout=60"])
     tracecheck.attribute(chk, results, pid, exe, "leg", "asan-ubsan", d2)
+    same = sum(1 for rep, _e, _p in results for f in rep["fails"] if f["sig"] == "impl-same")
+    diff = sum(1 for rep, _e, _p in results for f in rep["fails"] if f["sig"] == "impl-diff")
+    chk.cov.setdefault("impl_conformance", {})[cfg] = {"legalizations": same + diff, "same_as_LegalizeImpl": same, "different": diff}
     nontrivial_all(chk, allruns)
     for evs in allruns.values():
         if any(e["e"] == "EndThrow" for e in evs):
